@@ -205,9 +205,19 @@ def fn_rotmap(items):
                 viol.append(V('C03/rotmap/vs-reference', [N, gi], 'transform_by(clifford_rotation_map(%s)) differs from U^dag P U' % ref.g_to_str(g, p)))
             if (np.asarray(lst.gs) != np.asarray(lst2.gs)).any() or (np.asarray(lst.ps) % 4 != np.asarray(lst2.ps) % 4).any():
                 viol.append(V('C03/rotmap/vs-rotate_by', [N, gi], 'rotation map and rotate_by disagree for %s' % ref.g_to_str(g, p)))
+            # history: mutate the returned map in place, then ask for the same rotation map again -
+            # a constructor must hand out a fresh, correct object every time (no shared/stale cache)
+            ref_g, ref_p = np.asarray(M.gs).copy(), np.asarray(M.ps).copy()
+            for hg, hp in ((ref.all_g(N)[-1], 0), (ref.all_g(N)[1], 2)):
+                M.rotate_by(lib.P(hg, hp))
+            M.gs[0, :] = 1 - M.gs[0, :]
+            M3 = lib.pc.clifford_rotation_map(lib.P(g, p))
+            n += 1
+            if np.shares_memory(M3.gs, M.gs) or (np.asarray(M3.gs) != ref_g).any() or (np.asarray(M3.ps) % 4 != ref_p % 4).any():
+                viol.append(V('C03/rotmap/not-fresh-after-mutation', [N, gi], 'clifford_rotation_map(%s) after mutating a previously returned map differs / shares memory' % ref.g_to_str(g, p)))
             # string description accepted as generator
             M2 = lib.pc.clifford_rotation_map(('-' if p == 2 else '') + ref.g_to_str(g))
-            if (np.asarray(M2.gs) != np.asarray(M.gs)).any() or (np.asarray(M2.ps) % 4 != np.asarray(M.ps) % 4).any():
+            if (np.asarray(M2.gs) != ref_g).any() or (np.asarray(M2.ps) % 4 != ref_p % 4).any():
                 viol.append(V('C03/rotmap/string-generator', [N, gi], 'clifford_rotation_map from string differs'))
     return {'n': n, 'nt': nt, 'viol': viol}
 
